@@ -16,11 +16,13 @@ from . import findings as findings_mod
 
 VERIF = os.path.dirname(os.path.dirname(os.path.abspath(__file__)))
 EVIDENCE_DIR = os.path.join(VERIF, 'evidence')
-REPLAY_DIR = os.path.join(VERIF, 'replays')
+REPLAY_DIR = os.environ.get('XLMC_REPLAY_DIR') or os.path.join(VERIF, 'replays')
 
 MAX_UNMATCHED_PER_GROUP = 3
 MAX_GROUPS_REPORTED = 12
 MAX_REVERIFY = 6
+# rendering / route tags do not split violation groups
+GROUP_IGNORE = ('ws:', 'paren:', 'leaf:', 'lit:', 'route:', 'spell:')
 
 
 class HarnessError(Exception):
@@ -85,7 +87,9 @@ class Ctx:
                 if hit[1] is None:
                     hit[1] = {'key': key, 'sig': sig}
                 return
-        group = (tuple(sorted(tags)), generalise(sig))
+        group = (tuple(sorted(t for t in tags
+                              if not t.startswith(GROUP_IGNORE))),
+                 generalise(sig))
         g = self.unmatched.setdefault(group, [0, []])
         g[0] += 1
         if len(g[1]) < MAX_UNMATCHED_PER_GROUP:
